@@ -391,6 +391,31 @@ fn hostile_cases(prgs: &[(T, garble_lang::GarbleProgram)]) -> Result<u64, String
     Ok(n)
 }
 
+/// a parameter whose array size is a constant supplied at compile time: the text forms of its values are accepted and encode to the
+/// parameter's size; anything else is refused with an error, never a panic
+fn const_sized() -> Result<u64, String> {
+    use std::collections::HashMap;
+    let src = "const N: usize = PARTY_0::N;\npub fn main(s: [u8; N]) -> [u8; N] { s }";
+    let consts = HashMap::from([("PARTY_0".to_string(), HashMap::from([("N".to_string(), Literal::NumUnsigned(3, UnsignedNumType::Usize))]))]);
+    let prg = garble_lang::compile_with_constants(src, consts).map_err(|e| format!("the identity program over [u8; N] does not compile: {e:?}"))?;
+    let want: Vec<bool> = [1u8, 2, 3].iter().flat_map(|v| (0..8).map(move |i| (v >> (7 - i)) & 1 == 1)).collect();
+    let mut n = 0;
+    for (text, expect) in [("[1, 2, 3]", Some(&want)), ("[1u8, 2u8, 3u8]", Some(&want)), ("1..4", Some(&want)), ("[1; N]", None), ("[1, 2]", None), ("[1, 2, 3, 4]", None), ("[true; 3]", None)] {
+        n += 1;
+        let r = catch_unwind(AssertUnwindSafe(|| prg.parse_arg(0, text).map(|a| a.as_bits())));
+        match (r, expect) {
+            (Err(_), _) => return Err(format!("parse_arg panics on `{text}` for a parameter of type [u8; N] with N = 3")),
+            (Ok(Ok(bits)), Some(w)) if &bits == w => {}
+            (Ok(Ok(bits)), Some(_)) => return Err(format!("`{text}` for a parameter of type [u8; N] with N = 3 encodes to {} bits {:?}", bits.len(), &bits[..bits.len().min(32)])),
+            (Ok(Err(e)), Some(_)) => return Err(format!("`{text}` is refused for a parameter of type [u8; N] with N = 3: {e:?}")),
+            (Ok(Ok(bits)), None) if bits.len() == 24 => {} // accepted with the parameter's size (e.g. a repeat literal): fine
+            (Ok(Ok(bits)), None) => return Err(format!("`{text}` is accepted for a parameter of type [u8; N] with N = 3 and encodes to {} bits", bits.len())),
+            (Ok(Err(_)), None) => {}
+        }
+    }
+    Ok(n)
+}
+
 pub fn search(args: &[String]) -> i32 {
     let seed = arg_u64(args, "--seed", 1);
     let per_type = arg_u64(args, "--values", 60);
@@ -431,7 +456,7 @@ pub fn search(args: &[String]) -> i32 {
             println!("known-finding: C09-F1 cases={} example=`[(0, true), (-128, true)]` as [(i8, bool); 2]", k.get().1);
         }
     });
-    match hostile_cases(&prgs) {
+    match hostile_cases(&prgs).and_then(|h| const_sized().map(|c| h + c)) {
         Ok(h) => {
             println!("c09 search: {n} values of {} types (print/parse, size, documented layout, identity program) and {h} hostile literals agree with the reference model", prgs.len());
             0
